@@ -1,4 +1,5 @@
 import Grexv.Model.Api
+import Grexv.Gen.SettersWasm
 
 /-!
 # C17 — the WebAssembly binding delegates faithfully to the library
